@@ -5,7 +5,7 @@ set -e
 NAME=$1; PROP=$2; EXPECT=$3; EDIT=$4
 D=$(mktemp -d /tmp/mut.XXXXXX)
 cp -r /repo/. $D/
-(cd $D && python3 $EDIT && git diff > /tmp/$NAME.diff)
+(cd $D && git add -A >/dev/null && git -c user.email=x@x -c user.name=x commit -qm base --allow-empty >/dev/null; python3 $EDIT && git diff > /tmp/$NAME.diff)
 test -s /tmp/$NAME.diff || { echo "empty diff"; rm -rf $D; exit 1; }
 (cd $D && go build ./... && go test -vet=off -count=1 . >/dev/null 2>&1 && echo "tests pass with mutant") || echo "WARNING: build/tests fail with mutant"
 mkdir -p /verif/selftest/mutants/$NAME
